@@ -46,7 +46,7 @@ func resultEnv(env map[string]Val, sig *types.Signature, rs []Val) {
 	}
 	if n >= 1 && len(rs) >= 1 {
 		env["result"] = rs[0]
-		if isErrorType(sig.Results().At(n-1).Type()) {
+		if isErrorType(sig.Results().At(n - 1).Type()) {
 			if _, clash := env["err"]; !clash {
 				env["err"] = rs[n-1]
 			}
@@ -174,7 +174,7 @@ func (g *FnGen) doCall(ci ssa.CallInstruction, v ssa.Value) {
 			}
 			for _, oa := range r.ownAllocs[tn] {
 				if oa.term == a.T {
-					g.oblige("typeinv", site+"/publish:"+tn, guard, g.typeInvTerm(a, g.st), "invariant of "+tn+" holds when the new object is handed to a callee", ci.Pos())
+					g.obligeTypeInv("typeinv", site+"/publish:"+tn, guard, a, g.st, "invariant of "+tn+" holds when the new object is handed to a callee", ci.Pos())
 					published = append(published, a)
 				}
 			}
@@ -189,6 +189,10 @@ func (g *FnGen) doCall(ci ssa.CallInstruction, v ssa.Value) {
 		r := g.root()
 		mods := g.E.callMods(ci, true)
 		for _, tn := range sortedTypeNames(r.ownAllocs, r.dirty) {
+			t := lookupNamedType(g.P, tn)
+			if t == nil {
+				continue
+			}
 			touched := false
 			prefix := "F:" + tn + "."
 			for k := range mods {
@@ -196,11 +200,14 @@ func (g *FnGen) doCall(ci ssa.CallInstruction, v ssa.Value) {
 					touched = true
 				}
 			}
-			if !touched {
-				continue
+			// an invariant that speaks about the contents of a map held in a field also depends
+			// on that map type's arrays
+			for _, k := range g.typeInvMapKeys(tn, t) {
+				if mods[k] {
+					touched = true
+				}
 			}
-			t := lookupNamedType(g.P, tn)
-			if t == nil {
+			if !touched {
 				continue
 			}
 			for n, oa := range r.ownAllocs[tn] {
@@ -214,11 +221,11 @@ func (g *FnGen) doCall(ci ssa.CallInstruction, v ssa.Value) {
 					continue
 				}
 				ov := Val{T: oa.term, S: sortRef, Go: types.NewPointer(t)}
-				g.oblige("typeinv", fmt.Sprintf("%s/reachable:%s#%d", site, tn, n+1), and(guard, oa.guard), g.typeInvTerm(ov, g.st), "invariant of "+tn+" holds when a callee that may write such objects is called", ci.Pos())
+				g.obligeTypeInv("typeinv", fmt.Sprintf("%s/reachable:%s#%d", site, tn, n+1), and(guard, oa.guard), ov, g.st, "invariant of "+tn+" holds when a callee that may write such objects is called", ci.Pos())
 				reachPublished = append(reachPublished, dirtyObj{ov, oa.guard})
 			}
 			for n, d := range r.dirty[tn] {
-				g.oblige("typeinv", fmt.Sprintf("%s/reachable-written:%s#%d", site, tn, n+1), and(guard, d.guard, not("(= "+d.v.T+" nil)")), g.typeInvTerm(d.v, g.st), "invariant of "+tn+" is re-established before a callee that may write such objects is called", ci.Pos())
+				g.obligeTypeInv("typeinv", fmt.Sprintf("%s/reachable-written:%s#%d", site, tn, n+1), and(guard, d.guard, not("(= "+d.v.T+" nil)")), d.v, g.st, "invariant of "+tn+" is re-established before a callee that may write such objects is called", ci.Pos())
 				reachPublished = append(reachPublished, dirtyObj{d.v, and(d.guard, not("(= "+d.v.T+" nil)"))})
 			}
 		}
@@ -349,10 +356,10 @@ func (g *FnGen) doCall(ci ssa.CallInstruction, v ssa.Value) {
 		}
 	}
 	for _, a := range published {
-		g.assume(guard, g.typeInvTerm(a, g.st), "typeinv-after-publish")
+		g.assumeTypeInvAt(guard, a, g.st, "typeinv-after-publish")
 	}
 	for _, a := range reachPublished {
-		g.assume(and(guard, a.guard), g.typeInvTerm(a.v, g.st), "typeinv-after-publish")
+		g.assumeTypeInvAt(and(guard, a.guard), a.v, g.st, "typeinv-after-publish")
 	}
 	if ct != nil {
 		eg := guard
@@ -930,7 +937,7 @@ func (g *FnGen) inlineCall(f *ssa.Function, site string, args []Val) ([]Val, boo
 		env: r.env, siteNames: map[ssa.Instruction]string{}, callOrd: map[ssa.Instruction]int{},
 		assumptions: r.assumptions, usedExtern: r.usedExtern, defaultPure: r.defaultPure,
 		autoInvs: map[*ssa.BasicBlock][]autoInv{}, loopTypeInvObjs: map[*ssa.BasicBlock][]Val{}, sweep: g.sweep, entrySt: r.entrySt,
-		labelPrefix: g.labelPrefix + site + ">" , entryGuard: g.curGuard, depth: g.depth + 1, inlined: r.inlined}
+		labelPrefix: g.labelPrefix + site + ">", entryGuard: g.curGuard, depth: g.depth + 1, inlined: r.inlined}
 	r.inlined[fnName(f)] = true
 	ch.analyzeLoops()
 	ch.nameSites()
@@ -1182,4 +1189,27 @@ func mergePlaces(alts []Val) (*Place, bool) {
 		}
 	}
 	return p, false
+}
+
+// typeInvMapKeys lists the map heap keys the invariant of type tn reads (when it mentions
+// maphas/mapget/len of a map-typed field).
+func (g *FnGen) typeInvMapKeys(tn string, t types.Type) []string {
+	mentions := false
+	for _, c := range g.S.TypeInvs[tn] {
+		if strings.Contains(c.Src, "maphas(") || strings.Contains(c.Src, "mapget(") || strings.Contains(c.Src, "len(") {
+			mentions = true
+		}
+	}
+	st, ok := t.Underlying().(*types.Struct)
+	if !mentions || !ok {
+		return nil
+	}
+	var out []string
+	for i := 0; i < st.NumFields(); i++ {
+		if mt, ok := st.Field(i).Type().Underlying().(*types.Map); ok {
+			h, v, l := g.D.mapKeysT(mt.Key(), mt.Elem())
+			out = append(out, h, v, l)
+		}
+	}
+	return out
 }
